@@ -81,6 +81,8 @@ HeapMeaning == \A o \in 1..Len(heap) :
                  /\ ~IsErr(heap[o]) => Den(heap[o]) = meaning[o]
 HeapSizes == \A o \in 1..Len(heap) :
                ~IsErr(heap[o]) => meaning[o].r = SizeS(OutS(heap[o])) /\ meaning[o].c = SizeS(InS(heap[o]))
+\* as_matrix() of every object (class-specific overrides) is its meaning
+HeapAsMatrix == \A o \in 1..Len(heap) : ~IsErr(heap[o]) => AsMatrix(heap[o]) = meaning[o]
 \* a closed-form inverse really inverts (two-sided)
 InversesInvert == \A o \in 1..Len(heap) :
                     (hist[o].op = "I" /\ ~IsErr(heap[o]) /\ SolverFree(heap[o])) =>
